@@ -10,6 +10,7 @@ import EduceModel.Props.C08
 import EduceModel.Props.C09
 import EduceModel.Props.C10
 import EduceModel.Props.C11
+import EduceModel.Props.C20
 /-
   End-to-end theorems: from the attributes of an accepted definition (syn's oracle records, `Attr.DeriveInput`)
   through the attribute layer (`expand` / the handlers), the bridge (`Bridge.lean`) and the generator of the body
@@ -2712,6 +2713,98 @@ theorem default_handler_end_to_end (c : Ctx) (m : TraitMeta) (items : List Item)
             have : (defVariantOf c enum v).fields.any (·.flag) = false := defFields_noflag c enum v.fields
             simp only [this, Bool.false_eq_true, if_false]
             exact ⟨_, rfl⟩
+
+/-! ## C20 — unions, end to end -/
+
+/-- The flags of the type-level Debug builder on a union. -/
+def dbgUnionFlags : DebugTypeFlags :=
+  { flag := true, unsafe_ := true, name := true, namedField := false, bound := false, nameDefault := .default, namedFieldDefault := false }
+
+/-- **C20 end to end, Debug.** The Debug handler accepted a union: then the attribute carried the `unsafe` marker (as
+    its first parameter — that is what `hasUnsafe` of the attribute's reading records), no field carries a Debug attribute,
+    and the generated `fmt` lists the value's bytes under the effective name, or bare when the name is disabled, exactly as
+    core::fmt renders a one-field tuple / a byte slice. -/
+theorem debug_union_end_to_end (c : Ctx) (m : TraitMeta) (items : List Item) (hk : c.d.kind = .union)
+    (h : debugHandler c m = .ok items) :
+    ∃ ta, debugTypeFromMeta dbgUnionFlags m = .ok ta ∧ ta.hasUnsafe = true ∧
+      items = [{ trait := "Debug", preds := [], head := ["union", showName ta.name] }] ∧
+      ∃ bd, Gen.Union.debug (identOf c.d.name) { hasUnsafe := ta.hasUnsafe, name := ta.name } = .ok bd ∧
+        ∀ (bytes : List Nat) (alt : Bool),
+          Sem.evalUnionDebug bd bytes alt =
+            match Spec.effName ta.name (identOf c.d.name) with
+            | some n => Fmt.debugTuple (String.ofList n) [Sem.bytesDebug bytes] alt
+            | none => Sem.bytesDebug bytes alt := by
+  unfold debugHandler at h
+  simp only [hk] at h
+  obtain ⟨ta, hta, h⟩ := bind_ok_inv h
+  split at h
+  · cases h
+  · rename_i hu
+    obtain ⟨_, _, h⟩ := bind_ok_inv h
+    simp only [pure] at h
+    cases h
+    have hus : ta.hasUnsafe = true := by simpa using hu
+    refine ⟨ta, hta, hus, rfl, ?_⟩
+    cases hn : Spec.effName ta.name (identOf c.d.name) with
+    | some n =>
+      have := union_debug_named (identOf c.d.name) { hasUnsafe := ta.hasUnsafe, name := ta.name } n hus hn
+      cases hd : Gen.Union.debug (identOf c.d.name) { hasUnsafe := ta.hasUnsafe, name := ta.name } with
+      | error e => simp [Gen.Union.debug, hus] at hd; cases hx : ta.name.toIdent (identOf c.d.name) <;> simp [hx] at hd
+      | ok bd =>
+        refine ⟨bd, rfl, ?_⟩
+        intro bytes alt
+        have := this bytes alt
+        simpa [hd, Except.toOption] using this
+    | none =>
+      have := union_debug_bare (identOf c.d.name) { hasUnsafe := ta.hasUnsafe, name := ta.name } hus hn
+      cases hd : Gen.Union.debug (identOf c.d.name) { hasUnsafe := ta.hasUnsafe, name := ta.name } with
+      | error e => simp [Gen.Union.debug, hus] at hd; cases hx : ta.name.toIdent (identOf c.d.name) <;> simp [hx] at hd
+      | ok bd =>
+        refine ⟨bd, rfl, ?_⟩
+        intro bytes alt
+        have := this bytes alt
+        simpa [hd, Except.toOption] using this
+
+/-- **C20 end to end, PartialEq / Hash.** The handler accepted a union: the attribute carried `unsafe`, no field carries
+    an attribute of the trait, the item is the byte-wise one (no predicates), and the body is generated
+    (`Gen.Union.bytewise`); its meaning — equality of the `size_of::<Self>()` bytes, one length-prefixed slice fed to the
+    hasher — is `union_eq_bytewise` / `union_hash_shape` of Props/C20. -/
+theorem eqLike_union_end_to_end (c : Ctx) (m : TraitMeta) (me : TraitId) (mine : TraitId → Bool) (tp : String)
+    (comp : Option (TraitId × String)) (items : List Item) (hk : c.d.kind = .union)
+    (h : eqLikeHandler c m me mine tp comp = .ok items) :
+    ∃ ta, boundTypeFromMeta { flag := true, unsafe_ := true, bound := false } m = .ok ta ∧ ta.hasUnsafe = true ∧
+      items = withCompanion { trait := me.name, preds := [], head := ["union"] } comp c.traits ∧
+      Gen.Union.bytewise { hasUnsafe := ta.hasUnsafe } = .ok () := by
+  unfold eqLikeHandler at h
+  simp only [hk] at h
+  obtain ⟨ta, hta, h⟩ := bind_ok_inv h
+  split at h
+  · cases h
+  · rename_i hu
+    obtain ⟨_, _, h⟩ := bind_ok_inv h
+    simp only [pure] at h
+    cases h
+    have hus : ta.hasUnsafe = true := by simpa using hu
+    exact ⟨ta, hta, hus, rfl, by simp [Gen.Union.bytewise, hus]⟩
+
+/-- Without the marker a union is refused by Debug, PartialEq and Hash alike (the converse of the two theorems above). -/
+theorem union_without_unsafe_refused (c : Ctx) (m : TraitMeta) (hk : c.d.kind = .union) :
+    (∀ ta, debugTypeFromMeta dbgUnionFlags m = .ok ta → ta.hasUnsafe = false → debugHandler c m = .diag .unionWithoutUnsafe) ∧
+    (∀ me mine tp comp ta, boundTypeFromMeta { flag := true, unsafe_ := true, bound := false } m = .ok ta → ta.hasUnsafe = false →
+      eqLikeHandler c m me mine tp comp = .diag .unionWithoutUnsafe) := by
+  constructor
+  · intro ta hta hu
+    unfold debugHandler
+    simp only [hk]
+    have : debugTypeFromMeta { flag := true, unsafe_ := true, name := true, namedField := false, bound := false,
+                               nameDefault := .default, namedFieldDefault := false } m = .ok ta := hta
+    rw [this, ok_bind_eq]
+    simp [hu]
+  · intro me mine tp comp ta hta hu
+    unfold eqLikeHandler
+    simp only [hk]
+    rw [hta, ok_bind_eq]
+    simp [hu]
 
 /-! ## Non-vacuity: a concrete definition, as syn's records, through the whole chain
 
